@@ -452,10 +452,9 @@ func runConcurrent(c *eng.Ctx, s *subject, rc raceCfg) {
 	if s.WorkO != nil {
 		workO = s.WorkO
 	}
-	refO, refC, ok := references(c, s)
-	if !ok {
-		return
-	}
+	// The sequential references are computed AFTER the concurrent phase: whatever the library builds lazily on
+	// first use and shares between objects (tables keyed by ring degree / Galois element ...) must be built safely
+	// when the first users are concurrent, and a reference run before would build it for them.
 	G := rc.Goroutines
 	o := s.Make()
 	xs := make([]any, G)
@@ -504,6 +503,10 @@ func runConcurrent(c *eng.Ctx, s *subject, rc raceCfg) {
 	}
 	close(start)
 	wg.Wait()
+	refO, refC, ok := references(c, s)
+	if !ok {
+		return
+	}
 	c.Count("concurrent_workload_runs", total)
 	c.Count("concurrent_workload_runs_overlapping", overlapped)
 	c.Max("max_goroutines", int64(G))
